@@ -1884,15 +1884,43 @@ class C17(UciCheck):
         if self._replay:
             with open(self._replay) as f:
                 rp = json.load(f)
+            sess = rp.get("session")
             with open(req_path, "w") as f:
-                f.write(rp["request"] + "\n")
+                f.write((sess[-1] if sess else rp["request"]) + "\n")
         else:
+            sess = None
             vlib.gen_requests(["games", self.seed + 17, self.n(150, 6000), self.corpus_file("positions.fen")], req_path)
         reqs = [l for l in vlib.read_lines(req_path) if l]
+        # a GUI sends the growing move list of one game again and again, sometimes with `ucinewgame` in between:
+        # every second game is also sent up to a random earlier ply first, in the same engine process
+        rnd17 = random.Random(self.seed * 31 + 17)
+        prefix_of = {}
+        for r in reqs[::2]:
+            f = r.split("\t")
+            mvs = f[2].split() if len(f) > 2 else []
+            if len(mvs) >= 2 and not self._replay:
+                k = rnd17.randint(1, len(mvs) - 1)
+                pr = "\t".join([f[0], f[1], " ".join(mvs[:k])])
+                prefix_of[r] = (pr, rnd17.random() < 0.5)
+        if sess:
+            prefix_of[sess[-1]] = (sess[0], "!ucinewgame" in sess)
+        reqs = reqs + sorted({pr for pr, _ in prefix_of.values()} - set(reqs))
         answers = self.ask_driver(reqs, "games")
         issues = []
 
-        def play(chunk):
+        def play(chunk0):
+            chunk = []
+            for r in chunk0:
+                if r in prefix_of:
+                    pr, newgame = prefix_of[r]
+                    chunk.append(pr)
+                    if newgame:
+                        chunk.append("!ucinewgame")
+                chunk.append(r)
+            res = play_seq(chunk)
+            return [o for r, o in zip(chunk, res) if not r.startswith("!")], [r for r in chunk if not r.startswith("!")]
+
+        def play_seq(chunk):
             out = []
             e = None
 
@@ -1905,6 +1933,10 @@ class C17(UciCheck):
             try:
                 e = fresh()
                 for r in chunk:
+                    if r.startswith("!"):
+                        e.send(r[1:])
+                        out.append(("cmd", []))
+                        continue
                     f = r.split("\t")
                     fen = f[1]
                     moves = [m.split(":")[0] for m in (f[2].split() if len(f) > 2 else [])]
@@ -1934,13 +1966,16 @@ class C17(UciCheck):
             return out
 
         nchunks = 8
-        chunks = [reqs[i::nchunks] for i in range(nchunks)]
+        primary = [r for r in reqs if r not in {pr for pr, _ in prefix_of.values()} or r in prefix_of]
+        chunks = [primary[i::nchunks] for i in range(nchunks)]
         with ThreadPoolExecutor(max_workers=nchunks) as ex:
             res = list(ex.map(play, chunks))
         observed = {}
-        for c, rs in zip(chunks, res):
-            for r, o in zip(c, rs):
-                observed[r] = o
+        for outs, rs in res:
+            for r, o in zip(rs, outs):
+                observed.setdefault(r, []).append(o)
+        self.features["prefix-then-full"] = len(prefix_of)
+        self.features["ucinewgame-between"] = sum(1 for _, ng in prefix_of.values() if ng)
         for r, (model, spec) in zip(reqs, answers):
             self.evaluations += 1
             f = r.split("\t")
@@ -1960,19 +1995,31 @@ class C17(UciCheck):
                 self.features[ft] = self.features.get(ft, 0) + 1
             if feats - {"from-fen"}:
                 self.distinct.add(r)
-            fen_i, replies_i = observed.get(r, ("dead", []))
-            impl = f"fen={fen_i}|moves={' '.join(replies_i)}"
-            if len(self.samples) < 2:
-                self.samples.append({"game": r[:200], "engine": impl[:200]})
-            if fen_i in ("dead", "silent"):
-                issues.append(Issue("oracle", r, impl, model, spec, f"engine {fen_i} on a legal game: {r[:300]}", "uci"))
-            elif impl != spec:
-                sd = dict(x.split("=", 1) for x in spec.split("|"))
-                what = "position" if fen_i != sd.get("fen") else "set of replies"
-                issues.append(Issue("oracle", r, impl, model, spec,
-                                    f"{what} after the position command differs from the rules: engine {impl[:200]} rules {spec[:200]}", "uci"))
-            elif impl != model:
-                issues.append(Issue("corr", r, impl, model, spec, "engine model replays the game differently", "uci"))
+            # (a request may have been sent more than once: as an earlier ply of a longer game and on its own)
+            for fen_i, replies_i in observed.get(r, [("dead", [])]):
+                impl = f"fen={fen_i}|moves={' '.join(replies_i)}"
+                if len(self.samples) < 2:
+                    self.samples.append({"game": r[:200], "engine": impl[:200]})
+                pre = prefix_of.get(r)
+                ctx = (f" (sent after the same game up to ply {len(pre[0].split(chr(9))[2].split())}"
+                       f"{' and ucinewgame' if pre[1] else ''} in the same process)") if pre else ""
+                extra = {"session": [pre[0]] + (["!ucinewgame"] if pre[1] else []) + [r]} if pre else {}
+                if fen_i in ("dead", "silent"):
+                    i = Issue("oracle", r, impl, model, spec, f"engine {fen_i} on a legal game{ctx}: {r[:300]}", "uci")
+                    i.extra = extra
+                    issues.append(i)
+                    break
+                elif impl != spec:
+                    sd = dict(x.split("=", 1) for x in spec.split("|"))
+                    what = "position" if fen_i != sd.get("fen") else "set of replies"
+                    i = Issue("oracle", r, impl, model, spec,
+                              f"{what} after the position command differs from the rules{ctx}: engine {impl[:200]} rules {spec[:200]}", "uci")
+                    i.extra = extra
+                    issues.append(i)
+                    break
+                elif impl != model:
+                    issues.append(Issue("corr", r, impl, model, spec, "engine model replays the game differently", "uci"))
+                    break
         return issues
 
 
